@@ -752,6 +752,12 @@ def canon_repo_calls(r):
     P, A = r.P, r.A
 
     def rw(t):
+        if head(t) == "cmp" and t[1] in ("is", "isnot", "==", "!=") and strip(t[3]) == NONE:
+            # a freshly constructed object of a repository class is not None
+            x = strip(t[2])
+            if head(x) == "call" and head(strip(x[1])) == "glob" and strip(x[1])[1] in P.classes:
+                return const(t[1] in ("isnot", "!="))
+            return t
         if head(t) != "call":
             return t
         f = strip(t[1])
@@ -813,6 +819,18 @@ def baseline_owners(r, q, _seen=None):
                     or (head(f) == "attr" and f[2] == short and qcls and sum(1 for x in r.P.functions if x.rsplit(".", 1)[1] == short and r.P.functions[x].cls) == 1):
                 owners |= baseline_owners(r, fq, seen)
                 break
+    qcls = r.P.functions[q].cls if q in r.P.functions else None
+    if not owners and qcls and not any(m in base for m in r.P.classes[qcls].methods.values()):
+        # a method of a class that is new as a whole (invoked through the object, e.g. as a callable): it runs on behalf of whoever builds the object
+        for fq in r.P.functions:
+            if r.P.functions[fq].cls == qcls:
+                continue
+            try:
+                s = r.A.summary(fq)
+            except AnalysisBroken:
+                continue
+            if any(strip(strip(e["term"])[1]) == ("glob", qcls) for e in s.events_of("call")):
+                owners |= baseline_owners(r, fq, seen)
     return owners or {q}
 
 
@@ -840,7 +858,7 @@ def inline_helpers(r, term, keep=(), cls=None, depth=3):
             elif head(f) == "attr" and strip(f[1]) == ("param", "self") and cls:
                 m = P.find_method(cls, f[2])
                 if m and m not in keep and f[2].startswith("_") and not f[2].startswith("__"):
-                    callee, selft = m, ("param", "self")
+                    callee, selft = m, (None if P.functions[m].is_static else ("param", "self"))
             if callee:
                 cs = A.summary(callee)
                 if cs.is_generator:
